@@ -804,12 +804,26 @@ func init() {
 				c.Skip("the library panics on this text (C13 owns crashes)")
 				return
 			}
-			for _, viaStdin := range []bool{false, true} {
+			for variant := 0; variant < 3; variant++ {
+				viaStdin, toFile := variant == 1, variant == 2
 				args, stdin, files := []string{"-t", mode, "in.txt"}, "", map[string]string{"in.txt": in}
 				if viaStdin {
 					args, stdin, files = []string{"-t", mode}, in, nil
 				}
+				if toFile {
+					args = []string{"-o", "out.txt", "-t", mode, "in.txt"}
+					os.Remove(filepath.Join(c.WorkDir, "out.txt"))
+				}
 				res := RunCLI(c, bin, args, stdin, files)
+				if toFile && res.Status == 0 {
+					f, ok := readOut(c, "out.txt")
+					if !ok || res.Stdout != "" {
+						c.Violation("-o FILE in translate mode: file missing or output also on stdout", map[string]any{"argv": fmt.Sprint(args), "stdout": res.Stdout, "stderr": res.Stderr})
+						return
+					}
+					res.Stdout = f
+					c.Feature("translate_with_-o")
+				}
 				c.Feature("cli_runs")
 				extra := map[string]any{"argv": fmt.Sprint(args), "status": res.Status, "stdout": res.Stdout, "stderr": res.Stderr, "model_status": st, "model_output": want}
 				if HasCrashMarkers(res.Stderr) {
